@@ -98,8 +98,13 @@ def post_match_events(ctx):
             return
         if dist is None:
             lattice = _on_lattice(ref, est, window)
+            # the library compares ref with fl(est - window) / fl(est + window):
+            # its decision can differ from the exact one only within one rounding
+            # error of those sums
+            scale = float(max(np.max(np.abs(ref)) if ref.size else 0.0,
+                              np.max(np.abs(est)) if est.size else 0.0) + abs(window))
             pairs = om.abs_window_pairs(ref, est, window,
-                                        eps=0.0 if lattice else 1e-9)
+                                        eps=0.0 if lattice else 4 * np.spacing(scale))
             ctx.count("match_events.abs")
         else:
             orig = getattr(dist, "__verif_shim__", None)
